@@ -16,6 +16,9 @@ Families of cases (a case is one run, or {"family": "multi", "runs": [run, ...]}
   comp    generator -> consumers, direct or behind one time adapter (incl. consumers finer than the source)
   static  a time component owning a dynamic output "Out" AND a static output "Stat" (slot kind KStatic) read by static
           and/or ordinary inputs; the component attempts a SECOND publication of "Stat", which must be refused
+          options of comp runs: "dup": [period, phase] = the source publishes TWICE for the same time (a provisional and
+          a final value) on the updates n with n % period == phase; "noloc": true = Composition(slot_memory_location=None),
+          no slot has a location: the slots spill into the working directory, which then IS the location
   multi   two or three compositions run one after the other IN THE SAME PROCESS with the SAME spill directory (fresh
           slots, different payload values, gc.collect() in between so that id()s / file names are reused); each is
           compared with its own limit=None run
@@ -40,7 +43,8 @@ RULE = (
     "real compositions: generator (step s) -> 1-3 consumers (steps c_i), each direct or behind "
     "NextTime/PreviousTime/LinearTime/StepTime(step)/AvgOverTime(step)/SumOverTime(step, per_time True|False), incl. consumers "
     "finer than the source; static outputs read by static/ordinary inputs with a refused second publication; 2-3 "
-    "compositions in one process sharing the spill directory; payload scalar / grid array / "
+    "compositions in one process sharing the spill directory; sources publishing twice for one time stamp; compositions "
+    "without any configured location (spilling into the working directory); payload scalar / grid array / "
     "masked array (fixed mask, flexible mask, mask varying between publications incl. EMPTY masks as nomask and as an explicit "
     "all-False array, empty info mask); slot_memory_limit in {None, -1, 0, k*nbytes, k*nbytes+-1 (k = 0..history), "
     "huge}, optionally overridden per slot; non-trivial = some slot holds at least one spilled and at least one "
@@ -157,8 +161,36 @@ def _fine(kind, payload, limit, src=5, dst=1, end=12, ist=None, sp=None, pt=True
     return {"payload": payload, "src_step": src * 10**6, "consumers": [c], "end": end * 10**6, "limit": limit}
 
 
+def _dup(kind, payload, limit, dup=(1, 0), src=2, dst=2, end=8, sp=None, noloc=False, pt=True):
+    """a source that publishes twice for one time stamp (AvgOverTime / SumOverTime divide by a zero-length interval,
+    with or without a limit, when a request passes over such a pair: their consumer step divides the source step)"""
+    r = _simple(kind, payload, limit, src=src, dst=dst, end=end, sp=sp)
+    r["dup"] = list(dup)
+    if kind == "sum" and not pt:
+        r["consumers"][0]["pt"] = False
+    if noloc:
+        r["noloc"] = True
+    return r
+
+
+def _noloc(run):
+    r = dict(run)
+    r["noloc"] = True
+    return r
+
+
 def _corpus():
     cs = []
+    # seeded C10_l: a second publication for the time of the latest one must not orphan the file of the first
+    cs.append(_dup("direct", "scalar", 0))
+    cs.append(_dup("next", "grid", 0, dup=(2, 1), src=1, dst=3, end=9))
+    cs.append(_dup("avg", "scalar", 8, src=2, dst=1, end=8))
+    cs.append(_dup("linear", "varmask", 48, dup=(2, 0), src=1, dst=4, end=12))
+    # seeded C10_m: no spill location configured at all (the working directory is the location)
+    cs.append(_noloc(_simple("direct", "scalar", 0)))
+    cs.append(_noloc(_simple("sum", "grid", 48, src=1, dst=3, end=9)))
+    cs.append(_noloc(_static("grid", 0, sin="both")))
+    cs.append(_dup("prev", "masked", 0, noloc=True))
     # seeded C10_c: the file of a spilled STATIC publication must be gone after finalize
     cs.append(_static("grid", 0, sin="both"))
     cs.append(_static("masked", 24, sin="timed"))
@@ -223,6 +255,25 @@ def generate(rng, tier):
                 nslots = 1 + sum(1 for c in comp["consumers"] if c["kind"] != "direct")
                 own = {str(rng.randrange(nslots)): rng.choice([0, size, 2 * size, HUGE])}
             cases.append(_with(comp, lim, own))
+            if rng.random() < 0.08:
+                cases[-1] = _noloc(cases[-1])
+    # two publications for one time stamp; no location configured
+    for kind in KINDS:
+        for payload in (["scalar", "grid", "varmask"] if tier == "quick" else PAYLOADS):
+            size = payload_size(payload)
+            integ = kind in ("avg", "sum")
+            src = rng.choice([2, 4] if integ else [1, 2, 3])
+            dst = rng.choice([d for d in (1, 2, 4) if src % d == 0] if integ else [1, 2, 3, 5])
+            for lim in ([0, rng.choice([size, 2 * size + 1, 3 * size])] if tier == "quick" else [0, size, 2 * size, 2 * size + 1, 4 * size, None]):
+                cases.append(_dup(kind, payload, lim, dup=rng.choice([(1, 0), (1, 0), (2, 0), (2, 1), (3, 1)]), src=src, dst=dst,
+                                  end=rng.choice([8, 12]), sp=rng.choice(STEP_PARAMS) if kind == "step" else None,
+                                  noloc=rng.random() < 0.25, pt=rng.random() < 0.6))
+            cases.append(_noloc(_simple(kind, payload, rng.choice([0, size, 2 * size]), src=rng.choice([1, 2, 3]),
+                                        dst=rng.choice([2, 3, 5]), end=rng.choice([9, 12]),
+                                        sp=rng.choice(STEP_PARAMS) if kind == "step" else None)))
+    for payload in ["scalar", "masked"]:
+        for lim in [0, None, payload_size(payload) // 2]:
+            cases.append(_noloc(_static(payload, lim, sin=rng.choice(["static", "timed", "both"]))))
     # static outputs
     for payload in PAYLOADS:
         size = payload_size(payload)
@@ -398,7 +449,46 @@ def _payload_tools(run):
 def _build_comp(run, received, _extra):
     """generator -> consumers, each direct or behind one time adapter"""
     kw, gen, _value = _payload_tools(run)
-    src = fm.components.CallbackGenerator({"Out": (gen, fm.Info(None, **kw))}, T(0), D(run["src_step"]))
+    if run.get("dup"):
+        period, phase = run["dup"]
+
+        class DupSrc(fm.TimeComponent):
+            """a source that corrects itself: two publications for one time stamp"""
+
+            def __init__(self):
+                super().__init__()
+                self.time = T(0)
+                self._n = 0
+                self._first = None
+
+            def _initialize(self):
+                self.outputs.add(name="Out", info=fm.Info(time=self.time, **kw))
+                self.create_connector()
+
+            def _connect(self, start_time):
+                if self._first is None:
+                    self._first = {"Out": gen()}
+                self.try_connect(start_time, push_data=self._first)
+
+            def _validate(self):
+                pass
+
+            def _next_time(self):
+                return self.time + D(run["src_step"])
+
+            def _update(self):
+                self.time += D(run["src_step"])
+                self._n += 1
+                if self._n % period == phase:
+                    self.outputs["Out"].push_data(gen(), self.time)  # provisional
+                self.outputs["Out"].push_data(gen(), self.time)
+
+            def _finalize(self):
+                pass
+
+        src = DupSrc().with_name("Src")
+    else:
+        src = fm.components.CallbackGenerator({"Out": (gen, fm.Info(None, **kw))}, T(0), D(run["src_step"]))
     comps = [src]
     for i, c in enumerate(run["consumers"]):
         def cb(inp, t, i=i):
@@ -526,7 +616,12 @@ def _build_static(run, received, extra):
 def _run_once(run, limit, loc, instrument):
     received, extra = [], {}
     comps, wire = (_build_static if run.get("family") == "static" else _build_comp)(run, received, extra)
-    comp = fm.Composition(comps, print_log=False, slot_memory_limit=limit, slot_memory_location=loc)
+    if run.get("noloc"):
+        # nothing configured: join(memory_location or "", name) = the working directory is the location
+        comp = fm.Composition(comps, print_log=False, slot_memory_limit=limit, slot_memory_location=None)
+        loc = os.getcwd()
+    else:
+        comp = fm.Composition(comps, print_log=False, slot_memory_limit=limit, slot_memory_location=loc)
     slots, kinds, nkeys = wire()
     if instrument:  # per-slot limits set by the user win over the composition's (schedule.py 152, 194)
         for si, own_lim in (run.get("own") or {}).items():
@@ -695,7 +790,7 @@ def run_impl(case):
         for run in runs:
             gc.collect()
             lim = _run_once(run, run["limit"], loc, True)
-            lim["cwd_files"] = sorted(os.listdir(cwd))[:5]
+            lim["cwd_files"] = [] if run.get("noloc") else sorted(os.listdir(cwd))[:5]  # noloc: cwd is checked as "left"
             lim["base_files"] = sorted(x for x in os.listdir(base) if x not in ("spill", "cwd"))[:5]
             lims.append(lim)
             gc.collect()  # the slots of this composition are garbage now: their id()s may be handed out again
@@ -905,6 +1000,18 @@ def nontrivial(case, obs):
     return any((True in p) and (False in p) for p in _patterns(obs))
 
 
+def _dup_first_spilled(lim):
+    """some slot got two publications for one time and the first of them was written to a file"""
+    for evs in lim.get("events", []):
+        last = None
+        for ev in evs:
+            if ev[0] == "push" and len(ev) <= 5:
+                if last is not None and last[0] == ev[1] and last[1]:
+                    return True
+                last = (ev[1], ev[3][-1] if ev[3] else False)
+    return False
+
+
 def distribution(cases, obss):
     from collections import Counter
 
@@ -919,6 +1026,11 @@ def distribution(cases, obss):
                 if c2.get("kind") in ("avg", "sum", "linear", "step") and 2 * c2["step"] <= run["src_step"]:
                     finer += 1
             pay[run["payload"]] += 1
+            if run.get("dup"):
+                fam["runs with two publications per time stamp"] += 1
+                fam["... whose first of a pair was spilled"] += _dup_first_spilled(ro["lim"])
+            if run.get("noloc"):
+                fam["runs without a configured location"] += 1
             size = payload_size(run["payload"])
             l = run["limit"]
             lims["None" if l is None else "negative" if l < 0 else "0" if l == 0 else "huge" if l >= HUGE
@@ -959,6 +1071,11 @@ def extra_evidence(cases, obss):
 
 
 def _shrink_run(case):
+    for opt in ("dup", "noloc"):
+        if case.get(opt):
+            c = dict(case)
+            c.pop(opt)
+            yield c
     cons = case["consumers"]
     if len(cons) > 1:
         for i in range(len(cons)):
